@@ -568,7 +568,13 @@ example :
     let bad := exCondExprModel ⟨nm! "==", .param (nm! "nu10"), .param (nm! "nu1")⟩
     modelBoundaryOK [good] sigs good = true ∧ wellFormed [good] sigs good = true
     ∧ modelBoundaryOK [bad] sigs bad = false ∧ wellFormed [bad] sigs bad = true ∧ modelUnitsOK [bad] sigs true bad = true
-    ∧ (symbolicRun [good] sigs good.name (good.paramNames.map .param)).map branchCount = some 4 := by
+    ∧ (symbolicRun [good] sigs good.name (good.paramNames.map .param)).map branchCount = some 4
+    -- label swap: the model at the permuted vector tests the *other* comparison first; `sortTr` (Model/ModelPerm.lean) puts
+    -- nested comparisons in one order, so the correctly guarded model is still recognised as symmetric, the other is not
+    ∧ permOK [good] sigs permRules permPairs permFin good.name [1, 0]
+        [.param (nm! "nu20"), .param (nm! "nu2"), .param (nm! "nu10"), .param (nm! "nu1"), .param (nm! "T")] = true
+    ∧ permOK [bad] sigs permRules permPairs permFin bad.name [1, 0]
+        [.param (nm! "nu20"), .param (nm! "nu2"), .param (nm! "nu10"), .param (nm! "nu1"), .param (nm! "T")] = false := by
   decide +kernel
 
 /-- the hypotheses of `C15_branch_boundary` are satisfiable together -/
